@@ -195,7 +195,14 @@ def run_app(tape, r, site, argv, concurrency, sandbox, setup=None, budget_vtime=
     simset.set_tape(tape)
     env = SimEnv(tape, max_callbacks=max_callbacks, max_vtime=budget_vtime)
     crash = []
+    fatal = []
     orig_crash = wapp.Application._print_crash_message
+    orig_update = wapp.Application._update_exit_code_from_error
+
+    def record_fatal(self, error):
+        import traceback
+        fatal.append(''.join(traceback.format_exception(type(error), error, error.__traceback__))[-1800:])
+        return orig_update(self, error)
     try:
         with env:
             loop, net = env.loop, env.net
@@ -213,6 +220,7 @@ def run_app(tape, r, site, argv, concurrency, sandbox, setup=None, budget_vtime=
             builder = Builder(args)
             builder.factory.class_map['Resolver'] = NoDNSPythonResolver
             wapp.Application._print_crash_message = classmethod(lambda cls: crash.append(True))
+            wapp.Application._update_exit_code_from_error = record_fatal
             app = builder.build()
             series = builder.factory['PipelineSeries']
             series.concurrency = concurrency
@@ -237,6 +245,7 @@ def run_app(tape, r, site, argv, concurrency, sandbox, setup=None, budget_vtime=
                 except Exception:
                     pass
             out['crashed'] = bool(crash)
+            out['fatal'] = fatal[:1]
             r.sim_time += loop.time()
             r.callbacks += loop.callbacks
             r.events.extend(net.events)
@@ -244,6 +253,7 @@ def run_app(tape, r, site, argv, concurrency, sandbox, setup=None, budget_vtime=
             out['net_stats'] = dict(net.stats)
     finally:
         wapp.Application._print_crash_message = orig_crash
+        wapp.Application._update_exit_code_from_error = orig_update
         simset.set_tape(None)
         import logging
         root = logging.getLogger()
